@@ -521,7 +521,8 @@ void fp12_write_bin(uint8_t *bin, size_t len, const fp12_t a, int pack) {
 	RLC_TRY {
 		fp12_new(t);
 
-		if (pack) {
+		/* fp12_size_bin() advertises the plain length for an element that has no packed form. */
+		if (pack && len != 12 * RLC_FP_BYTES) {
 			if (len != 8 * RLC_FP_BYTES) {
 				RLC_THROW(ERR_NO_BUFFER);
 			}
